@@ -9,7 +9,7 @@ use syn::{ImplItem, Item};
 pub const REQUIRED: &[&str] = &[
     "Rect.horizontal_axis_sum", "Rect.vertical_axis_sum", "Rect.sum_axes", "Rect.ZERO", "Size.ZERO", "Size.f32_max", "Size.f32_min",
     "Size.NONE", "Size.maybe_apply_aspect_ratio", "Size.unwrap_or", "Size.or", "Size.both_axis_defined", "Point.ZERO", "Point.NONE",
-    "f32.TaffyZero_ZERO", "Size.TaffyZero_ZERO", "Rect.TaffyZero_ZERO", "Point.TaffyZero_ZERO", "Size.zero", "Rect.zero", "Point.zero",
+    "Line.FALSE", "f32.TaffyZero_ZERO", "Size.TaffyZero_ZERO", "Rect.TaffyZero_ZERO", "Point.TaffyZero_ZERO", "Size.zero", "Rect.zero", "Point.zero",
 ];
 
 pub fn extract(repo: &str, w: &mut World) -> Result<String, String> {
@@ -24,16 +24,20 @@ pub fn extract(repo: &str, w: &mut World) -> Result<String, String> {
     let mut v = vec![];
     impls(&file.items, &env, &[], &mut v)?;
     let g = |names: &[&str]| -> HashMap<String, Ty> { names.iter().map(|n| (n.to_string(), Ty::F32)).collect() };
+    // the `FlexDirection`-indexed accessors go to Generated/Axes.lean (extract/src/axes.rs), after `impl FlexDirection`
+    out.comment("Rect::main_axis_sum, Rect::cross_axis_sum, Size::from_cross (and the generic `impl<T>` accessors): see Generated/Axes.lean");
+    out.text.push('\n');
     for info in &v {
         if info.trait_.is_some() {
             continue;
         }
         match (info.self_ty.as_str(), info.generics.len()) {
-            ("Rect<T>", 2) => impl_items(&mut out, w, info, &env, "Rect", Some(Ty::adt("Rect", vec![f.clone()])), &g(&["T", "U"]), "Rect.", REQUIRED, &[])?,
+            ("Rect<T>", 2) => impl_items(&mut out, w, info, &env, "Rect", Some(Ty::adt("Rect", vec![f.clone()])), &g(&["T", "U"]), "Rect.", REQUIRED, &["main_axis_sum", "cross_axis_sum"])?,
             ("Rect<f32>", 0) => impl_items(&mut out, w, info, &env, "Rect", Some(Ty::adt("Rect", vec![f.clone()])), &g(&[]), "Rect.", REQUIRED, &[])?,
             ("Size<f32>", 0) => impl_items(&mut out, w, info, &env, "Size", Some(Ty::adt("Size", vec![f.clone()])), &g(&[]), "Size.", REQUIRED, &[])?,
-            ("Size<Option<f32>>", 0) => impl_items(&mut out, w, info, &env, "Size", Some(Ty::adt("Size", vec![of.clone()])), &g(&[]), "Size.", REQUIRED, &[])?,
+            ("Size<Option<f32>>", 0) => impl_items(&mut out, w, info, &env, "Size", Some(Ty::adt("Size", vec![of.clone()])), &g(&[]), "Size.", REQUIRED, &["from_cross"])?,
             ("Size<Option<T>>", 1) => impl_items(&mut out, w, info, &env, "Size", Some(Ty::adt("Size", vec![of.clone()])), &g(&["T"]), "Size.", REQUIRED, &[])?,
+            ("Line<bool>", 0) => impl_items(&mut out, w, info, &env, "Line", Some(Ty::adt("Line", vec![Ty::Bool])), &g(&[]), "Line.", REQUIRED, &[])?,
             ("Point<f32>", 0) => impl_items(&mut out, w, info, &env, "Point", Some(Ty::adt("Point", vec![f.clone()])), &g(&[]), "Point.", REQUIRED, &[])?,
             ("Point<Option<f32>>", 0) => impl_items(&mut out, w, info, &env, "Point", Some(Ty::adt("Point", vec![of.clone()])), &g(&[]), "Point.", REQUIRED, &[])?,
             _ => {}
@@ -81,7 +85,7 @@ pub fn extract(repo: &str, w: &mut World) -> Result<String, String> {
                     for ii in info.items {
                         if let ImplItem::Fn(ff) = ii {
                             if ff.sig.ident == "zero" {
-                                out.function(w, Plan { head: head.to_string(), rust_name: "zero".into(), lean_rel: format!("{head}.zero"), self_ty: Some(st.clone()), generics: g(&["T"]), sig: &ff.sig, block: &ff.block, required: true });
+                                out.function(w, Plan { head: head.to_string(), rust_name: "zero".into(), lean_rel: format!("{head}.zero"), self_ty: Some(st.clone()), generics: g(&["T"]), sig: &ff.sig, block: &ff.block, required: true, trunc_sub: false });
                             }
                         }
                     }
